@@ -50,9 +50,9 @@ func checkC14(c *Ctx) *core.Result {
 	if len(r.Violations) > 0 {
 		return r
 	}
-	nW, okW := t.ClassConsts["sqliTokenTypeBareWord"]
-	n1, ok1 := t.ClassConsts["sqliTokenTypeNumber"]
-	fpV, okF := t.ClassConsts["sqliTokenTypeFingerprint"]
+	nW, okW := classValue(t, classBareWord)
+	n1, ok1 := classValue(t, classNumber)
+	fpV, okF := classValue(t, classFingerprint)
 	if !okW || !ok1 || !okF {
 		anchorFail(r, "class constants", "BareWord/Number/Fingerprint not found")
 		return r
